@@ -188,11 +188,14 @@ def run_once(case, allow, fixture_lines, sess, vclock=None, record_key=None, the
                     plan2 = dict(plan, reflection=False) if then_closed == "plan" else plan
                     if then_closed == "plan":
                         env.state["_planner_reflection_flag"] = False
-                    else:
+                    elif then_closed == "config":
                         env.cfg["t3"]["allow_reflection"] = False
                     t2n = case["turn"] + 1 if isinstance(case["turn"], int) else 2
-                    r2 = env.run(case["agent"], case["text"] + " again", t2n, plan=plan2, vclock=vc, ctx_extra=extra, ctx_obj=r["ctx"])
-                    second = {"exc": r2["exc"], "adds": len(idx.adds) - n_adds, "lines": len(env.records("t3_reflection.jsonl")) - n_lines, "reflect": calls["reflect"] - n_reflect}
+                    later = NOW_MS + 3 * 86400000 + 5000  # the caller advanced the logical clock on its ctx
+                    r2 = env.run(case["agent"], case["text"] + " again", t2n, now_ms=later, plan=plan2, vclock=vc, ctx_extra=extra, ctx_obj=r["ctx"])
+                    second = {"exc": r2["exc"], "adds": len(idx.adds) - n_adds, "lines": len(env.records("t3_reflection.jsonl")) - n_lines, "reflect": calls["reflect"] - n_reflect,
+                              "ts": [e.get("ts") for e in idx.adds[n_adds:]], "ids": [e.get("id") for e in idx.adds[n_adds:]], "texts": [str(e.get("text", "")) for e in idx.adds[n_adds:]],
+                              "now_iso": iso_from_ms(later), "turn": t2n}
             logs = env.logs()
             return {"r": r, "calls": calls, "adds": idx.adds, "attempts": idx.attempts, "refl_lines": env.records("t3_reflection.jsonl"),
                     "canon": {k: env.canon(v) for k, v in logs.items() if k in CANON}, "line": r["line"], "now_iso": iso_from_ms(NOW_MS), "cfg": env.cfg, "second": second}
@@ -287,6 +290,18 @@ def check_case(case, sess: Session):
                 sess.violation("reused-ctx:stale-reflection-written-with-gate-closed", tcase, {"closed_by": how, **sec})
         elif sec is not None:
             sess.violation("reflection-path-aborts-turn:reused-ctx", tcase, sec["exc"][:200])
+    # --- the next turn on the same ctx object with the gate still open and the logical clock advanced: ids and timestamps
+    #     are those of the new turn
+    if fault is None and o["adds"] and case["backend"] == "rulebased":
+        o5 = run_once(case, True, None, sess, then_closed="open")
+        sec = o5.get("second") if isinstance(o5, dict) else None
+        if sec is not None and not sec["exc"] and sec["adds"]:
+            sess.count("reused_ctx_gate_open_turns")
+            if any(t != sec["now_iso"] for t in sec["ts"]):
+                sess.violation("reused-ctx:entry-timestamp-is-the-previous-turns-clock", tcase, {"ts": sec["ts"][:2], "logical_clock_of_the_turn": sec["now_iso"]})
+            exp_ids = [expected_id(case["agent"], sec["turn"], i, t) for i, t in enumerate(sec["texts"])]
+            if sec["ids"] != exp_ids:
+                sess.violation("id-not-function-of-agent-turn-slot-text", tcase, {"got": sec["ids"][:2], "exp": exp_ids[:2], "reused_ctx": True})
     # --- follow-up in the same process (module state survives): the same prompt again, now with the fixture gone, must
     #     write nothing; and once the fixture is back it must write again (no positive / negative memoisation of outcomes)
     if fault is None and case["backend"] == "llm" and calls["keys"] and o["adds"]:
